@@ -288,6 +288,9 @@ fn main() {
                 let (mut vb, lb) = new_vm();
                 for f in &forms {
                     let text = f.render();
+                    if std::env::var("VERIF_DEBUG_CASE").is_ok() {
+                        eprintln!("case {} form {}", case, text);
+                    }
                     let (ra, k) = run_uninterrupted(&mut va, &text);
                     let mut used = vec![];
                     let mut next = || {
